@@ -8,6 +8,7 @@ import Dtn7.Model.Node
 import Dtn7.Lemmas.Node
 import Dtn7.Lemmas.NodeEvents
 import Dtn7.Lemmas.NodeFwd
+import Dtn7.Lemmas.NodeBook
 
 namespace Dtn7.Node
 
@@ -186,6 +187,43 @@ theorem sendBundle_kept_any (env : Env) (b : Bundle) (n : Node) (hfix : n.cfg.ho
   rcases this with h | h
   · exact Or.inl h
   · exact Or.inr (Holds.of_kept h b2 e2)
+
+/-- A submission (repaired code) only touches the item of the ID it assigned, keeps the store well-formed,
+and all its outputs are transmissions of the bundle with the assigned number — in every state. -/
+theorem sendBundle_only_any (env : Env) (b : Bundle) (n : Node) (w : WF n)
+    (hseq : n.cfg.seqFirst = true) (hskip : n.cfg.skipStored = true) :
+    WF (sendBundle env b n).1 ∧ OnlyKey (assignSeq b n).1.key n (sendBundle env b n).1 ∧
+    ∀ o ∈ (sendBundle env b n).2, ∃ p ok, o = Output.sent p (assignSeq b n).1 ok := by
+  rcases assignSeq_free b n hskip with ⟨⟨q, hq⟩, ⟨x, hx⟩, _⟩
+  have hpair : assignSeq b n = ({ b with seq := q }, n.setIdk x) := Prod.ext hq hx
+  unfold sendBundle
+  simp only [hseq, if_true, hpair]
+  generalize ({ b with seq := q } : Bundle) = b'
+  unfold newDescFromBundle
+  simp only
+  have hDk := newDesc_key (n.setIdk x) b'.key
+  generalize newDesc (n.setIdk x) b'.key = D at hDk ⊢
+  obtain ⟨Dk, Dr, Dc, Db⟩ := D
+  simp only at hDk
+  subst hDk
+  simp only
+  have hbk : ∀ b0, ({ key := b'.key, receiver := Dr, cons := Dc, bndl := some b' } : Desc).bndl = some b0 →
+      b0.key = b'.key := by
+    intro b0 h; cases h; rfl
+  have w0 : WF (n.setIdk x) := wf_idk w x
+  have o0 : OnlyKey b'.key n (n.setIdk x) := ⟨⟨rfl, rfl, rfl, rfl⟩, fun _ _ => rfl, fun _ _ => rfl⟩
+  have k1 := sync_kstep { key := b'.key, receiver := Dr, cons := Dc, bndl := some b' } (n.setIdk x) hbk
+  have k2 := (notifyNew_rt b'.key b' (sync { key := b'.key, receiver := Dr, cons := Dc, bndl := some b' } (n.setIdk x))).kstep
+  have k12 := k1.trans k2
+  have hcfg12 : (notifyNew b'.key b' (sync { key := b'.key, receiver := Dr, cons := Dc, bndl := some b' } (n.setIdk x))).cfg = n.cfg :=
+    k12.only.env.cfg
+  have k3 := transmit_kstep env { key := b'.key, receiver := Dr, cons := Dc, bndl := some b' } b'
+    (notifyNew b'.key b' (sync { key := b'.key, receiver := Dr, cons := Dc, bndl := some b' } (n.setIdk x)))
+    (k12.wf w0) rfl (by rw [hcfg12]; exact Or.inl hseq)
+  have k3b := transmit_bstep env { key := b'.key, receiver := Dr, cons := Dc, bndl := some b' } b'
+    (notifyNew b'.key b' (sync { key := b'.key, receiver := Dr, cons := Dc, bndl := some b' } (n.setIdk x)))
+    rfl (by rw [hcfg12]; exact Or.inl hseq)
+  exact ⟨k3.wf (k12.wf w0), (o0.trans k12.only).trans k3.only, k3b.2⟩
 
 /-! ## The persistent record while the transmissions of one `forward` are in progress -/
 
